@@ -1,6 +1,6 @@
 (** C02 — replica state is an order-independent function of the entries offered.
     Statements only; every proof is [exact] of a lemma proved elsewhere. *)
-From ID Require Import Model.Put Proofs.PutFacts.
+From ID Require Import Base.Bytes Model.Entry Model.Put Model.Tables Model.Bounds Model.FsStore Proofs.PutFacts Proofs.FsPutFacts.
 
 (** The content after offering the entries of [l] (in this order, to an empty replica) is
     exactly the set of entries of [l] that no other entry of [l] dominates. *)
@@ -49,3 +49,20 @@ Print Assumptions C02_put_removes_exactly.
 Print Assumptions C02_put_untouched.
 Print Assumptions C02_rejected_noop.
 Print Assumptions C02_rejected_iff.
+
+(** The same at the level of the database tables ([ranger::Store::put] of the redb store:
+    parent lookups, the bounded prefix scan, three tables): every insert returns the outcome of
+    the abstract [put] and leaves exactly the abstract content in the records table ... *)
+Theorem C02_table_put_refines_put : forall EH T e, wf_records T -> wf_entry e ->
+  snd (fs_put prefix_succ EH T e) = snd (put (recs T) e) /\
+  (forall x, In x (recs (fst (fs_put prefix_succ EH T e))) <-> In x (fst (put (recs T) e))) /\
+  wf_records (fst (fs_put prefix_succ EH T e)).
+Proof. exact fs_put_refines. Qed.
+
+(** ... so after any sequence of offers the records table holds exactly the non-dominated ones. *)
+Theorem C02_table_content_is_reduce : forall EH l, Forall wf_entry l -> consistent l ->
+  forall x, In x (recs (fs_puts EH empty_tables l)) <-> in_reduce l x.
+Proof. exact fs_puts_content. Qed.
+
+Print Assumptions C02_table_put_refines_put.
+Print Assumptions C02_table_content_is_reduce.
